@@ -131,7 +131,31 @@ def regions_of(fn):
         i = 0
         while i < len(stmts):
             st = stmts[i]
-            if st.get("k") == "if" and mentions_id(st.child("c")):
+            if st.get("k") == "switch" and mentions_id(st.child("c")) and strip_casts(st.child("c")) is not None and strip_casts(st.child("c")).get("n") == "inputID":
+                # switch (inputID) { case K: ...; default: ... }  -- each case is a region `inputID == K`, the default the negation of all of them
+                body = st.child("body")
+                kids = [fn.nodes[c] for c in body.get("ch", [])] if body is not None and body.get("k") == "compound" else []
+                vals, groups, cur = [], [], None
+                for kid in kids:
+                    k2 = kid
+                    labels = []
+                    while k2 is not None and k2.get("k") in ("case", "default"):
+                        labels.append(("default", None) if k2.get("k") == "default" else ("case", k2.get("v")))
+                        k2 = k2.child("sub")
+                    if labels:
+                        cur = {"labels": labels, "stmts": []}
+                        groups.append(cur)
+                        vals += [v for t_, v in labels if t_ == "case"]
+                    if cur is not None and k2 is not None and k2.get("k") != "break":
+                        cur["stmts"].append(k2)
+                for gq in groups:
+                    for t_, v in gq["labels"]:
+                        g2 = guards + ([("eq", v, True)] if t_ == "case" else [("eq", v2, False) for v2 in vals])
+                        sub = []
+                        for s2 in gq["stmts"]:
+                            sub += [fn.nodes[c] for c in s2.get("ch", [])] if s2.get("k") == "compound" else [s2]
+                        walk_stmts([x for x in sub if x.get("k") != "break"], g2)
+            elif st.get("k") == "if" and mentions_id(st.child("c")):
                 c = st.child("c")
                 walk_block(st.child("then"), guards + [(c, True)])
                 if "else" in st and st.child("else") is not None:
@@ -220,8 +244,13 @@ def run_rule(prog, rep, unit="lib/BuildSystem/BuildSystem.cpp", floor=6):
             bad = None
             for gi, (guards, nodes) in enumerate(regs):
                 verdicts = []
-                for cond, pol in guards:
-                    v = decide(pv, cond, form)
+                for gd in guards:
+                    if len(gd) == 3:
+                        _tag, cv, pol = gd
+                        v = decide_cmp("==", form, {1: cv})
+                    else:
+                        cond, pol = gd
+                        v = decide(pv, cond, form)
                     if not pol:
                         v = {ALWAYS: NEVER, NEVER: ALWAYS, SOMETIMES: SOMETIMES}[v]
                     verdicts.append(v)
@@ -229,7 +258,7 @@ def run_rule(prog, rep, unit="lib/BuildSystem/BuildSystem.cpp", floor=6):
                     continue
                 if SOMETIMES in verdicts:
                     bad = "for some list sizes / indices the ID also satisfies the test at line %s of provideValue (ranges overlap)" % \
-                        [g[0].get("ln") for g, v in zip(guards, verdicts) if v == SOMETIMES][0]
+                        [(g[0].get("ln") if len(g) == 2 else "switch") for g, v in zip(guards, verdicts) if v == SOMETIMES][0]
                     break
                 landing.append((guards, nodes))
             if bad:
